@@ -255,6 +255,14 @@ fn valid_preserving(lang: &Lang, text: &Text, t: &mut Tape) -> Option<Edit> {
                 let (s, e) = *t.pick(&words);
                 let w = &b[s..e];
                 if lits.iter().any(|l| l.as_bytes() == w) {
+                    // a keyword: swap it for another alphabetic literal of the grammar (switches the production
+                    // while the text around it stays the same)
+                    let kws: Vec<&String> = lits.iter().filter(|l| l.bytes().all(|c| c.is_ascii_alphabetic()) && l.as_bytes() != w).collect();
+                    if !kws.is_empty() && t.pct(60) {
+                        let same: Vec<&&String> = kws.iter().filter(|l| l.len() == w.len()).collect();
+                        let k = if !same.is_empty() && t.pct(60) { (*t.pick(&same)).as_str() } else { t.pick(&kws).as_str() };
+                        return Some(Edit { start: s, old_end: e, inserted: k.as_bytes().to_vec() });
+                    }
                     continue;
                 }
                 let digits = w.iter().all(|c| c.is_ascii_digit());
